@@ -140,7 +140,7 @@ func explain(path string) int {
 	}
 	var rep struct {
 		Property, Rule, Instance, At, Status, Message string
-		Trace                                        []string
+		Trace                                         []string
 	}
 	if err := json.Unmarshal(b, &rep); err != nil {
 		fmt.Fprintln(os.Stderr, err)
